@@ -85,6 +85,15 @@ class Similarity(Affine):
                 "Only 2D and 3D Similarity transforms " "are currently supported."
             )
 
+    @property
+    def composes_inplace_with(self):
+        r"""
+        :class:`Similarity` can swallow composition with any other
+        :class:`Similarity` (translation, rotation, uniform scale) and still
+        be a similarity.
+        """
+        return Similarity
+
     def _as_vector(self):
         r"""
         Return the parameters of the transform as a 1D array. These parameters
